@@ -1,10 +1,12 @@
 """C03 — grouping preserves each feature's order (contiguity, monotone transform)."""
-from harness import k_transform
+from harness import k_ordinal, k_quantiles, k_transform
 
 
 def obligations(tier):
     return [
         k_transform.obligation(tier, {"C03"}, "O3.1 transform of a quantitative feature is a total, monotone step function (first group whose leader >= x; leader = largest boundary)"),
+        k_quantiles.obligation(tier, {"C03"}, "O3.2 quantile boundaries are sorted observed values followed by the +inf sentinel", ["sorted", "free"]),
+        k_ordinal.obligation(tier, {"C03"}, "O3.3 ordinal groups are contiguous runs of the supplied ranking, in ranking order"),
     ]
 
 
